@@ -72,6 +72,8 @@ def is_injected(case, exc):
 def judge(case, outs, exc, handled=None, who="caller"):
     f, exp = expected_of(case)
     info = {k: v for k, v in case.items() if k != "choices"}
+    odd = [o for o in outs if not (isinstance(o, (tuple, list)) and len(o) >= 3)]
+    require(not odd, "an output was delivered that no filter call produced (outputs are (item, k, worker) records)", odd=[repr(o)[:80] for o in odd[:4]], case=info)
     got = Counter((o[0], o[1]) for o in outs)
     dup = {k: v for k, v in got.items() if v > exp.get(k, 0)}
     require(not dup, "outputs duplicated or invented", extra=dup, case=info)
